@@ -25,6 +25,7 @@ func init() {
 func runC08(c *core.Ctx, r *core.Reporter) {
 	c08args(c, r)
 	c08patch(c, r)
+	c08funcinfo(c, r)
 	c08cache(c, r)
 	c08nostate(c, r)
 }
@@ -252,6 +253,63 @@ func c08patch(c *core.Ctx, r *core.Reporter) {
 			}
 		}
 		r.Decide(ok, rule, "slip.(Package).DefLambda|Lambda."+f, c.Pos(fn.Pos()), detail)
+	}
+}
+
+// c08funcinfo: when a function is (re)defined, the registered FuncInfo must be
+// brought up to date on every path: every FuncInfo field that DefLambda assigns
+// on some path is assigned on every path to the return.
+func c08funcinfo(c *core.Ctx, r *core.Reporter) {
+	const rule = "C08.patch"
+	fnObj := c.LookupFunc("", "Package.DefLambda")
+	if fnObj == nil {
+		return
+	}
+	fn := c.SSAFunc(fnObj)
+	blocks := map[string]map[*ssa.BasicBlock]bool{}
+	for _, b := range fn.Blocks {
+		for _, in := range b.Instrs {
+			st, ok := in.(*ssa.Store)
+			if !ok {
+				continue
+			}
+			fa, ok := st.Addr.(*ssa.FieldAddr)
+			if !ok || !core.IsNamed(fa.X.Type(), core.SlipPath, "FuncInfo") {
+				continue
+			}
+			f := fieldName(fa)
+			if blocks[f] == nil {
+				blocks[f] = map[*ssa.BasicBlock]bool{}
+			}
+			blocks[f][b] = true
+		}
+	}
+	var fs []string
+	for f := range blocks {
+		fs = append(fs, f)
+	}
+	sort.Strings(fs)
+	for _, f := range fs {
+		if f == "Export" || f == "Name" {
+			continue // set only at creation / conditionally by design (name is the key; export is sticky)
+		}
+		// can the return be reached from the entry avoiding every block that stores the field?
+		seen := map[*ssa.BasicBlock]bool{}
+		stack := []*ssa.BasicBlock{fn.Blocks[0]}
+		escaped := false
+		for len(stack) > 0 && !escaped {
+			b := stack[len(stack)-1]
+			stack = stack[:len(stack)-1]
+			if seen[b] || blocks[f][b] {
+				continue
+			}
+			seen[b] = true
+			if _, ok := b.Instrs[len(b.Instrs)-1].(*ssa.Return); ok {
+				escaped = true
+			}
+			stack = append(stack, b.Succs...)
+		}
+		r.Decide(!escaped, rule, "slip.(Package).DefLambda|FuncInfo."+f, c.Pos(fn.Pos()), fmt.Sprintf("FuncInfo.%s is assigned on every path of a (re)definition: %v (a field updated only at creation keeps the first definition's value: the saved load form pairs a stale lambda list with the new body)", f, !escaped))
 	}
 }
 
